@@ -73,6 +73,7 @@ type c19Shared struct {
 	eid                      *object.ExtendedSpatialID
 	ints                     []int64
 	strs                     []string
+	strsWin                  []string // length 3 window of an 8-element array: helpers must not write behind it
 	emptyCap                 []string // length 0, capacity 8, over a backing array filled with sentinels
 	badList                  []string // valid prefix that expands to > 1000 voxels, then a malformed ID
 	obst, obstExt, probes    []string // 40 obstacle voxels; the same plus 3 more; 3000 probes whose last one overlaps only the extension
@@ -98,7 +99,7 @@ func (s *c19Shared) snapshot() string {
 	for _, q := range append(append([]*object.QuadkeyAndVerticalID{}, s.qv...), s.qvBit...) {
 		fmt.Fprintf(&b, "%v;", *q)
 	}
-	fmt.Fprintf(&b, "%v|%v|%q|%q|%q|%q|%x", *s.eid, s.ints, s.emptyCap[:cap(s.emptyCap)], s.badList, s.obst, s.obstExt, core.HashStr(strings.Join(s.probes, " ")))
+	fmt.Fprintf(&b, "%q|%v|%v|%q|%q|%q|%q|%x", s.strsWin[:cap(s.strsWin)], *s.eid, s.ints, s.emptyCap[:cap(s.emptyCap)], s.badList, s.obst, s.obstExt, core.HashStr(strings.Join(s.probes, " ")))
 	return b.String()
 }
 
@@ -148,6 +149,7 @@ func c19Build() (*c19Shared, []c19Inst) {
 	s.eid, _ = object.NewExtendedSpatialID("7/24/53/5/19")
 	s.ints = []int64{5, -3, 5, 9, 0, -3}
 	s.strs = []string{"b", "a", "b", "c", "a"}
+	s.strsWin = []string{"w", "a", "w", "behind-0", "behind-1", "behind-2", "behind-3", "behind-4"}[:3]
 	backing := []string{"sentinel-0", "sentinel-1", "sentinel-2", "sentinel-3", "sentinel-4", "sentinel-5", "sentinel-6", "sentinel-7"}
 	s.emptyCap = backing[:0]
 	s.badList = []string{"10/5/7/10/3", "10/6/7/10/3", "10/5/8/10/-4", "10/5/7/10"}
@@ -353,6 +355,9 @@ func c19Build() (*c19Shared, []c19Inst) {
 		// common / spatial / object
 		I("common.set-helpers", func() string {
 			u, d, i := common.Union(s.ints, s.ints[2:]), common.Difference(s.ints, s.ints[3:]), common.Intersect(s.strs, s.strs[1:])
+			uw := common.Union(s.strsWin, s.strs) // first operand is a window of a longer shared array
+			sort.Strings(uw)
+			d = append(d, int64(len(uw)), int64(len(common.Unique(s.strsWin))), int64(len(common.Difference(s.strsWin, s.strs[:1]))))
 			q := common.Unique(s.strs)
 			sort.Slice(u, func(a, b int) bool { return u[a] < u[b] })
 			sort.Strings(q)
